@@ -388,38 +388,20 @@ example : writerSign {} Format.standard true ++ writeDecimal Format.standard {} 
 /-! ## decimal value corollary -/
 
 /-- **C02's open part, as the single hypothesis of the value round trip**: the decimal digit generator of the writer
-(Dragonbox / Grisu) returns, for the magnitude `mbits` (finite, non-zero), canonical digits `ds` and scientific
-exponent `sci` such that `ds · 10^(sci + 1 − |ds|)` is one of `Spec.shortest f mbits`; the exponent lies in the
-decimal range of every supported type. -/
+(Dragonbox / Grisu) returns, for the magnitude `mbits` (finite, non-zero), canonical digits `ds` and a scientific
+exponent `sci` such that `ds · 10^(sci + 1 − |ds|)` is (the value of) one of `Spec.shortest f mbits`. -/
 structure WriterDigitsShortest (f : Fmt) (mbits : Nat) (ds : List Nat) (sci : Int) : Prop where
   canonical : DigitsOk ds
-  shortest : (ofDigits 10 ds, sci + 1 - (ds.length : Int)) ∈ shortest f mbits
-  range : -1200 < sci ∧ sci < 1100
-
-/-- full statement of the decimal value round trip on the model level: the writer's digit generators are proved to
-return `Spec.shortest` (C02), so the hypothesis `WriterDigitsShortest` is discharged for the models
-`Model.Dragonbox` / `Model.Grisu`; kept as a `Prop` (C02 is partial). -/
-def roundtrip_decimal_value_full : Prop :=
-  ∀ (f : Fmt) (digitsOf : Nat → List Nat × Int), WF f →
-    (∀ mbits, 0 < mbits → mbits < f.infBits →
-      WriterDigitsShortest f mbits (digitsOf mbits).1 (digitsOf mbits).2) →
-    ∀ (feats : Features) (fmt : Format) (wo : WOpts) (po : POpts) (mbits : Nat) (neg : Bool),
-      FormatValid feats (unpack fmt.raw) → fmt.mantissaRadix = 10 → fmt.exponentBase = 10 →
-      OptionsAgree feats fmt wo po → PrefixClear feats fmt po.dp po.exp → wo.maxDigits = none →
-      0 < mbits → mbits < f.infBits →
-      ∃ l : FloatLit,
-        grammarFloatComplete feats fmt po (writerSign feats fmt neg ++
-          writeDecimal fmt feats (digitsOf mbits).1 (digitsOf mbits).2 wo) =
-            .num l (writerSign feats fmt neg ++
-              writeDecimal fmt feats (digitsOf mbits).1 (digitsOf mbits).2 wo).length ∧
-        litBits f fmt.mantissaRadix fmt.exponentBase l = mbits + (if neg then f.signBit else 0)
+  shortest : ∃ D E, (D, E) ∈ shortest f mbits ∧
+    (D : ℚ) * (10 : ℚ) ^ E = (ofDigits 10 ds : ℚ) * (10 : ℚ) ^ (sci + 1 - (ds.length : Int))
 
 /-- **`roundtrip_decimal_value`** = shape theorem ∘ (digits are `Spec.shortest`) ∘ `shortest_roundtrips`: without
 digit truncation (`max_significant_digits` unset; `min_significant_digits`, `trim_floats`, the breaks and every
-format flag are free) the bits read back (`Spec.litBits` of the literal the grammar derives, which is what the
-specification column renders) are the bits written, sign included. -/
-theorem roundtrip_decimal_value (f : Fmt) (hf : WF f) (feats : Features) (fmt : Format) (wo : WOpts) (po : POpts)
-    (mbits : Nat) (ds : List Nat) (sci : Int) (neg : Bool)
+format flag are free) the bits read back (`Spec.litBits` of the literal the grammar derives — what the
+specification column of a `pf` op renders) are the bits written, sign included.  `FmtRange f` (instances
+`fmtRange_f32`, `fmtRange_f64`) says that the type's finite range lies inside `(10^-1200, 10^1100)`. -/
+theorem roundtrip_decimal_value (f : Fmt) (hf : WF f) (hrange : FmtRange f) (feats : Features) (fmt : Format)
+    (wo : WOpts) (po : POpts) (mbits : Nat) (ds : List Nat) (sci : Int) (neg : Bool)
     (hv : FormatValid feats (unpack fmt.raw)) (h10 : fmt.mantissaRadix = 10) (hbase : fmt.exponentBase = 10)
     (ha : OptionsAgree feats fmt wo po) (hclear : PrefixClear feats fmt po.dp po.exp) (hmax : wo.maxDigits = none)
     (h0 : 0 < mbits) (hfin : mbits < f.infBits) (hW : WriterDigitsShortest f mbits ds sci) :
@@ -427,7 +409,13 @@ theorem roundtrip_decimal_value (f : Fmt) (hf : WF f) (feats : Features) (fmt : 
       grammarFloatComplete feats fmt po (writerSign feats fmt neg ++ writeDecimal fmt feats ds sci wo) =
         .num l (writerSign feats fmt neg ++ writeDecimal fmt feats ds sci wo).length ∧
       litBits f fmt.mantissaRadix fmt.exponentBase l = mbits + (if neg then f.signBit else 0) := by
-  have hrt := LexVerif.Props.RoundNE.shortest_roundtrips hf h0 hfin hW.shortest
+  obtain ⟨D, E, hmem, hval⟩ := hW.shortest
+  have hrt : roundNE f (decFrac (ofDigits 10 ds) (sci + 1 - (ds.length : Int))).1
+      (decFrac (ofDigits 10 ds) (sci + 1 - (ds.length : Int))).2 = mbits := by
+    rw [← LexVerif.Props.RoundNE.shortest_roundtrips hf h0 hfin hmem]
+    apply LexVerif.Props.RoundNE.roundNE_congr hf (decFrac_den_pos _ _) (decFrac_den_pos _ _)
+    rw [decFrac_Q, decFrac_Q]
+    exact hval.symm
   have hD : ofDigits 10 ds ≠ 0 := by
     intro hz
     rw [hz] at hrt
@@ -441,21 +429,17 @@ theorem roundtrip_decimal_value (f : Fmt) (hf : WF f) (feats : Features) (fmt : 
   rw [truncateAndRound_none ds wo hmax] at h3
   simp only [Bool.false_eq_true, if_false, Int.add_zero] at h3
   refine ⟨l, h1, ?_⟩
-  rw [h10, hbase, litBits_of_form hf l ds sci h3 hD hW.range.1 hW.range.2, hrt, h2]
-
-theorem roundtrip_decimal_value_full_holds : roundtrip_decimal_value_full := by
-  intro f digitsOf hf hW feats fmt wo po mbits neg hv h10 hb ha hc hm h0 hfin
-  exact roundtrip_decimal_value f hf feats fmt wo po mbits _ _ neg hv h10 hb ha hc hm h0 hfin (hW mbits h0 hfin)
+  rw [h10, hbase, litBits_of_form hf hrange l ds sci h3 hW.canonical.lt mbits h0 hfin hrt, h2]
 
 /-- non-vacuity of `WriterDigitsShortest` / `roundtrip_decimal_value`: `0.3` (f64 `0x3fd3333333333333`) has the
 shortest digits `[3]` at exponent `-1`; written under the all-required format it is `+3.0e-1` and reads back. -/
 theorem shortest_three_tenths : WriterDigitsShortest f64 0x3fd3333333333333 [3] (-1) :=
-  ⟨⟨by decide, by decide, by decide⟩, by decide +kernel, by decide⟩
+  ⟨⟨by decide, by decide, by decide⟩, 3, -1, by decide +kernel, by norm_num [ofDigits]⟩
 
 example :=
-  roundtrip_decimal_value f64 wf_f64 featsRF fmtAllRequired {} {} 0x3fd3333333333333 [3] (-1) false allRequired_valid
-    (by decide) (by decide) ⟨rfl, rfl, rfl, rfl, by decide, by decide, by decide, by decide⟩ (by decide) rfl
-    (by decide) (by decide) shortest_three_tenths
+  roundtrip_decimal_value f64 wf_f64 fmtRange_f64 featsRF fmtAllRequired {} {} 0x3fd3333333333333 [3] (-1) false
+    allRequired_valid (by decide) (by decide) ⟨rfl, rfl, rfl, rfl, by decide, by decide, by decide, by decide⟩
+    (by decide) rfl (by decide) (by decide) shortest_three_tenths
 
 /-- … and the instance computed: `+3.0e-1` reads back as `0x3fd3333333333333` -/
 example : (match grammarFloatComplete featsRF fmtAllRequired {} (writerSign featsRF fmtAllRequired false ++
